@@ -5,8 +5,13 @@ package fam
 import (
 	"fmt"
 	"os"
+	"strconv"
 	"strings"
 
+	"github.com/arnodel/golua/lib"
+	"github.com/arnodel/golua/lib/base"
+	"github.com/arnodel/golua/lib/coroutine"
+	"github.com/arnodel/golua/lib/packagelib"
 	rt "github.com/arnodel/golua/runtime"
 
 	"verif/engine/cmd/c10/gen"
@@ -23,8 +28,16 @@ const chunkName = "chunk"
 const cpuLimit = 5000000
 
 func runGolua(src string, protected bool) host.Obs {
-	m := host.NewMachine(false)
-	defer m.Close()
+	// a fresh runtime per case with the libraries the programs use (base,
+	// coroutine; package is needed by the loaders): a coroutine that a program
+	// abandons keeps its goroutine, and with it the whole runtime, alive for the
+	// rest of the worker process, so the runtime is kept small
+	m := host.NewMachine(true)
+	cleanup := lib.LoadLibs(m.R, base.LibLoader, packagelib.LibLoader, coroutine.LibLoader)
+	defer func() {
+		m.Close()
+		cleanup()
+	}()
 	if !protected {
 		return m.Exec(chunkName, src, nil, nil)
 	}
@@ -204,6 +217,12 @@ func runCase(fam, key, src string, protected bool) core.Outcome {
 	// at the moment it dies by an error (manual: only coroutine.close does)?
 	eager := refRun(p, false)
 	if eager.Unspec == "" && !eager.Diverge && compare(eager, got) == "" {
+		if fam != coErrorFamily {
+			// this one deviation is reported by the dedicated family only (every
+			// other family would repeat it for each program in which an error
+			// escapes from a coroutine body)
+			return out
+		}
 		word = "co-error-eager-close"
 		detail = "golua agrees with the reference variant in which a coroutine that ends with an error unwinds its stack at once; manual §3.3.8: it does not close any variable until coroutine.close\n" + clause
 	}
@@ -216,6 +235,10 @@ func runCase(fam, key, src string, protected bool) core.Outcome {
 	}
 	return out
 }
+
+// coErrorFamily is the only family that reports golua's eager closing of the
+// variables of a coroutine that ends with an error.
+const coErrorFamily = "co-error"
 
 // ---------------------------------------------------------------- families
 
@@ -246,7 +269,20 @@ func (f *nestFam) at(i uint64) *gen.Spec {
 	return s
 }
 
+// scaled applies the development override VERIF_C10_BUDGET_SCALE (a factor
+// for every family's BudgetSeconds, used to let a run finish on a loaded
+// machine or with few workers).
+func scaled(budget int) int {
+	if v := os.Getenv("VERIF_C10_BUDGET_SCALE"); v != "" {
+		if f, err := strconv.ParseFloat(v, 64); err == nil && f > 0 {
+			return int(float64(budget) * f)
+		}
+	}
+	return budget
+}
+
 func (f *nestFam) family(budget int, protected bool) *core.Family {
+	budget = scaled(budget)
 	return &core.Family{
 		Name: f.name,
 		Size: f.size(),
@@ -283,17 +319,6 @@ func declRange(d, kmin, kmax int, dk []gen.DKind, pick func([]gen.DKind) bool) [
 	return out
 }
 
-// atMostOneSpecial: at most one declaration is not a plain logging handler.
-func atMostOneSpecial(kv []gen.DKind) bool {
-	n := 0
-	for _, k := range kv {
-		if k != gen.HLog {
-			n++
-		}
-	}
-	return n <= 1
-}
-
 // exactlyOne(set): exactly one declaration has a kind of set, the others log.
 func exactlyOneOf(set []gen.DKind) func([]gen.DKind) bool {
 	in := map[gen.DKind]bool{}
@@ -322,27 +347,28 @@ func Families(tier string) []*core.Family {
 		fams = append(fams, f.family(budget, true))
 	}
 	withLog := append([]gen.DKind{gen.HLog}, valueKinds...)
+	three := []gen.DKind{gen.HLog, gen.HRaise, gen.HYield}
 	if !thorough {
-		add("nest-d1", 1, 2, declRange(1, 0, 3, mainKinds, nil), 40)
-		add("nest-d2-k01", 2, 2, declRange(2, 0, 1, mainKinds, nil), 40)
-		add("nest-d2-k2", 2, 2, declRange(2, 2, 2, mainKinds, nil), 150)
-		add("nest-d2-k3log", 2, 1, declRange(2, 3, 3, []gen.DKind{gen.HLog}, nil), 30)
-		add("values-d1", 1, 1, declRange(1, 1, 2, withLog, exactlyOneOf(valueKinds)), 30)
+		add("nest-d1", 1, 2, declRange(1, 0, 3, mainKinds, nil), 20)
+		add("nest-d2-k01", 2, 2, declRange(2, 0, 1, mainKinds, nil), 20)
+		add("nest-d2-k2", 2, 2, declRange(2, 2, 2, mainKinds, nil), 50)
+		add("nest-d2-k3", 2, 1, declRange(2, 3, 3, three, nil), 60)
+		add("values-d1", 1, 1, declRange(1, 1, 2, withLog, exactlyOneOf(valueKinds)), 15)
 	} else {
-		add("nest-d1", 1, 2, declRange(1, 0, 3, mainKinds, nil), 30)
-		add("nest-d2-k01", 2, 2, declRange(2, 0, 1, mainKinds, nil), 30)
-		add("nest-d2-k2", 2, 2, declRange(2, 2, 2, mainKinds, nil), 90)
-		add("nest-d2-k3", 2, 1, declRange(2, 3, 3, handlers, nil), 200)
-		add("nest-d3-k01", 3, 2, declRange(3, 0, 1, mainKinds, nil), 160)
-		add("nest-d3-k2", 3, 1, declRange(3, 2, 2, handlers, atMostOneSpecial), 360)
-		add("nest-d3-k3log", 3, 1, declRange(3, 3, 3, []gen.DKind{gen.HLog}, nil), 200)
-		add("values-d1", 1, 1, declRange(1, 1, 2, withLog, exactlyOneOf(valueKinds)), 30)
-		add("values-d2", 2, 1, declRange(2, 1, 2, withLog, exactlyOneOf(valueKinds)), 80)
+		add("nest-d1", 1, 2, declRange(1, 0, 3, mainKinds, nil), 20)
+		add("nest-d2-k01", 2, 2, declRange(2, 0, 1, mainKinds, nil), 20)
+		add("nest-d2-k2", 2, 2, declRange(2, 2, 2, mainKinds, nil), 60)
+		add("nest-d2-k3", 2, 1, declRange(2, 3, 3, handlers, nil), 120)
+		add("nest-d3-k01", 3, 2, declRange(3, 0, 1, mainKinds, nil), 100)
+		add("nest-d3-k2", 3, 1, declRange(3, 2, 2, handlers, nil), 500)
+		add("nest-d3-k3log", 3, 1, declRange(3, 3, 3, []gen.DKind{gen.HLog}, nil), 120)
+		add("values-d1", 1, 1, declRange(1, 1, 2, withLog, exactlyOneOf(valueKinds)), 15)
+		add("values-d2", 2, 1, declRange(2, 1, 2, withLog, exactlyOneOf(valueKinds)), 50)
 	}
 	// the main chunk called WITHOUT a context (plain rt.Call)
 	uf := &nestFam{name: "unprotected-host-call", nests: gen.Nestings(1, []gen.Kind{gen.KChunk}), exits: gen.Exits(1, 1),
 		decls: declRange(1, 0, 2, handlers, nil)}
-	fams = append(fams, uf.family(30, false))
+	fams = append(fams, uf.family(15, false))
 	var chunkNests [][]gen.Kind
 	for _, n := range gen.Nestings(2, allKinds) {
 		if n[0] == gen.KChunk {
@@ -351,7 +377,28 @@ func Families(tier string) []*core.Family {
 	}
 	uf2 := &nestFam{name: "unprotected-host-call-d2", nests: chunkNests, exits: gen.Exits(2, 1),
 		decls: declRange(2, 1, 2, []gen.DKind{gen.HLog, gen.HRaise}, nil)}
-	fams = append(fams, uf2.family(30, false))
+	fams = append(fams, uf2.family(15, false))
+	// a coroutine that ends with an error keeps its stack: depth <= 2 nestings
+	// with a coroutine level, error exits
+	var coNests [][]gen.Kind
+	for d := 1; d <= 2; d++ {
+		for _, n := range gen.Nestings(d, []gen.Kind{gen.KDo, gen.KFunc, gen.KPcall, gen.KCoCreate, gen.KCoWrap}) {
+			for _, k := range n {
+				if k.IsCo() {
+					coNests = append(coNests, n)
+					break
+				}
+			}
+		}
+	}
+	var coExits []gen.Exit
+	for _, e := range gen.Exits(2, 1) {
+		if e.X == gen.XError || e.X == gen.XFall {
+			coExits = append(coExits, e)
+		}
+	}
+	cf := &nestFam{name: coErrorFamily, nests: coNests, exits: coExits, decls: append(declRange(2, 1, 1, []gen.DKind{gen.HLog, gen.HRaise}, nil), declRange(2, 2, 2, []gen.DKind{gen.HLog}, nil)...)}
+	fams = append(fams, cf.family(15, true))
 	fams = append(fams, genforFamily(thorough), xpcallFamily(thorough), staticFamily())
 	return fams
 }
@@ -433,9 +480,9 @@ func extraKindFamily(name string, extra gen.Kind, gfKinds, dk []gen.DKind, thoro
 		c := cfgs[i]
 		return &gen.Spec{Nest: c.nest, Decls: c.decls, Exit: c.exit.X, E: c.exit.E, W: c.exit.W, GF: c.gf}
 	}
-	budget := 60
+	budget := 15
 	if thorough {
-		budget = 300
+		budget = 80
 	}
 	return &core.Family{
 		Name: name,
@@ -445,7 +492,7 @@ func extraKindFamily(name string, extra gen.Kind, gfKinds, dk []gen.DKind, thoro
 			return runCase(name, s.Key(), s.Lua(), true)
 		},
 		Show:          func(i uint64) string { s := at(i); return s.Key() + "\n" + s.Lua() },
-		BudgetSeconds: budget,
+		BudgetSeconds: scaled(budget),
 	}
 }
 
